@@ -120,7 +120,7 @@ func c02GenSign(t *rapid.T) c02SignCase {
 	}
 	c.BatchEnt = c02GenEnt(t, "be")
 	c.NoExpand = rapid.Bool().Draw(t, "noexpand")
-	c.Deep = rapid.IntRange(0, 5).Draw(t, "deep") == 0
+	c.Deep = rapid.IntRange(0, 7).Draw(t, "deep") == 0
 	return c
 }
 
@@ -180,7 +180,19 @@ func c02CheckSign(c c02SignCase) h.Result {
 	if err != nil || det == nil {
 		return r.Fail("PrivateKey.Sign:error-on-valid-input", "%s ctxlen=%d msglen=%d selfverify=%v verify=%s err=%v", id(), len(ctx), len(msg), c.SelfV, c02PresetNames[c.VSel], err).Result()
 	}
-	want := ref.EdSign(oseed, variant, octx, omsg)
+	// Reference signature.  Deep cases use ref.EdSign (recomputes A = [a]B itself);
+	// the others use the cheaper ref.C02SignWithPub with A taken from crypto/ed25519
+	// (A itself is compared with the math/big reference in TestC02KeyGen).
+	refSign := func(z []byte) []byte {
+		if c.Deep {
+			if z == nil {
+				return ref.EdSign(oseed, variant, octx, omsg)
+			}
+			return ref.EdSignHedged(oseed, variant, octx, omsg, z)
+		}
+		return ref.C02SignWithPub(oseed, spub, variant, octx, omsg, z)
+	}
+	want := refSign(nil)
 	swant, serr := spriv.Sign(nil, omsg, &stded.Options{Hash: hash, Context: string(octx)})
 	if serr != nil || !bytes.Equal(want, swant) {
 		return r.Fail("oracle:verifref-vs-crypto/ed25519-disagree", "%s ref=%x std=%x err=%v", id(), want, swant, serr).Result()
@@ -225,7 +237,7 @@ func c02CheckSign(c c02SignCase) h.Result {
 		}
 		// the documented construction, evaluated by the reference
 		r.Eval(1)
-		if hw := ref.EdSignHedged(oseed, variant, octx, omsg, z1); !bytes.Equal(hed1, hw) {
+		if hw := refSign(z1); !bytes.Equal(hed1, hw) {
 			return r.Fail("PrivateKey.Sign:added-randomness-differs-from-construction", "%s ctxlen=%d msglen=%d z=%x got=%x want=%x", id(), len(ctx), len(msg), z1, hed1, hw).Result()
 		}
 		// never the deterministic nonce
